@@ -73,7 +73,12 @@ META = dict(
          'incl. strings, all-ones code values, new reference values, associated and skipped fields.',
     technique='Lean 4 theorems (induction over columns, bit arithmetic) + metamorphic oracle on the implementation + checked '
               'model/implementation correspondence',
-    note='Whole-template transparency is proved for the CHECKED compressed encoder (C05_walk_transparent: side conditions field '
+    note='Finding F24 (fixed): structural values of compressed data - Props/C05Factors.lean (the factor the compressed decoder / '
+         'encoder replicates by is the value EVERY subset holds; the repaired check refuses every other column with the library '
+         'error) and part (f) of the check (harness/structcols.py: bit-level compressed messages whose delayed replication factor or '
+         'bitmap bit is missing / different in one subset, at top level and inside replications; what decodes must decode the same '
+         'from its uncompressed and re-compressed forms); the bitmap case is the open finding F24-bitmap. '
+         'Whole-template transparency is proved for the CHECKED compressed encoder (C05_walk_transparent: side conditions field '
          'width <= 64, replication factors / bitmap entries equal in all subsets and read back as supplied, no missing value in '
          'a one-bit field of a varying column); outside those conditions it is carried by the oracle and the correspondence. '
          'A missing value in a 1-bit field is not a conforming input. Floats: the model uses exact decimals, compressed vs '
